@@ -82,3 +82,116 @@ Proof.
   set (A := fold_left (fun acc c => ez_add C Cplus acc (spec C (RtoC 0) Cplus Cinv cis0 c leaf)) a (Zf (RtoC 0))).
   f_equal. symmetry. apply ser_fold_acc.
 Qed.
+
+(* ---- nested parallel connections may be merged as well ------------------------------------------------------------------------ *)
+Definition pzero (vals : list (ez C)) : bool := existsb (ez_is_zero C cis0) vals.
+Definition pfin (vals : list (ez C)) : list (ez C) := filter (fun v => negb (ez_is_inf C v)) vals.
+Definition padd (acc v : ez C) : ez C := ez_add C Cplus acc (ez_inv C (RtoC 0) Cinv cis0 v).
+Definition padm (vals : list (ez C)) : ez C := fold_left padd (pfin vals) (Zf (RtoC 0)).
+Definition pval (vals : list (ez C)) : ez C :=
+  if pzero vals then Zf (RtoC 0) else match pfin vals with [] => Inf | _ => ez_inv C (RtoC 0) Cinv cis0 (padm vals) end.
+
+Lemma spec_par_pval (leaf : nat -> ez C) l : l <> [] -> cspec (CPar l) leaf = pval (map (fun c => cspec c leaf) l).
+Proof. destruct l as [|x l]; [congruence|]. intros _. reflexivity. Qed.
+
+Lemma pzero_app a b : pzero (a ++ b) = pzero a || pzero b.
+Proof. unfold pzero. apply existsb_app. Qed.
+Lemma pfin_app a b : pfin (a ++ b) = pfin a ++ pfin b.
+Proof. unfold pfin. apply filter_app. Qed.
+
+Lemma padd_fold_acc l : forall acc, fold_left padd l acc = ez_add C Cplus acc (fold_left padd l (Zf (RtoC 0))).
+Proof.
+  induction l as [|x l IH]; intro acc; cbn [fold_left].
+  - destruct acc; simpl; auto. f_equal. ring.
+  - rewrite (IH (padd acc x)). rewrite (IH (padd (Zf (RtoC 0)) x)). unfold padd. rewrite cez_add_0_l. apply cez_add_assoc.
+Qed.
+
+(* without a shorted branch the summed admittance of the finite branches is a finite number *)
+Lemma padm_finite vals : pzero vals = false -> exists s, padm vals = Zf s.
+Proof.
+  unfold padm. intro H.
+  assert (G : forall l acc, (forall v, In v l -> ez_is_zero C cis0 v = false /\ ez_is_inf C v = false) -> forall s0, acc = Zf s0 ->
+              exists s, fold_left padd l acc = Zf s).
+  { induction l as [|x l IH]; intros acc Hl s0 ->; cbn [fold_left]; [eauto|].
+    destruct (Hl x (or_introl eq_refl)) as [Hz Hi]. destruct x as [z|]; [|discriminate].
+    simpl in Hz. unfold padd. simpl. rewrite Hz. simpl. eapply IH; [intros v Hv; apply Hl; right; exact Hv|reflexivity]. }
+  apply (G (pfin vals) (Zf (RtoC 0))) with (s0 := RtoC 0); [|reflexivity].
+  intros v Hv. unfold pfin in Hv. apply filter_In in Hv. destruct Hv as [Hin Hf]. split.
+  - unfold pzero in H. destruct (ez_is_zero C cis0 v) eqn:E; [|reflexivity].
+    assert (existsb (ez_is_zero C cis0) vals = true) by (apply existsb_exists; eauto). congruence.
+  - destruct (ez_is_inf C v); [discriminate|reflexivity].
+Qed.
+
+Lemma Cinv_nonzero (s : C) : s <> 0 -> / s <> 0.
+Proof.
+  intros Hs Hc. pose proof (Cinv_r s Hs) as Hr. rewrite Hc in Hr. rewrite Cmult_0_r in Hr.
+  apply (f_equal fst) in Hr. simpl in Hr. apply R1_neq_R0. auto.
+Qed.
+
+Lemma Cinv_inv' (s : C) : s <> 0 -> / / s = s.
+Proof.
+  intro Hs. rewrite <- (Cmult_1_r (/ / s)). rewrite <- (Cinv_l s Hs). rewrite Cmult_assoc.
+  rewrite (Cinv_l (/ s) (Cinv_nonzero s Hs)). apply Cmult_1_l.
+Qed.
+
+Lemma pzero_cons x l : pzero (x :: l) = ez_is_zero C cis0 x || pzero l.
+Proof. reflexivity. Qed.
+Lemma pfin_cons_Zf z l : pfin (Zf z :: l) = Zf z :: pfin l.
+Proof. reflexivity. Qed.
+Lemma pfin_cons_Inf l : pfin (@Inf C :: l) = pfin l.
+Proof. reflexivity. Qed.
+
+Theorem pval_flatten (va vl vb : list (ez C)) : vl <> [] ->
+  pval (va ++ pval vl :: vb) = pval (va ++ vl ++ vb).
+Proof.
+  intro Hne. destruct (pzero vl) eqn:Ez.
+  - (* a shorted branch inside: everything is shorted *)
+    assert (E : pval vl = Zf (RtoC 0)) by (unfold pval; rewrite Ez; reflexivity). rewrite E.
+    unfold pval. rewrite !pzero_app, pzero_cons, Ez. cbn [ez_is_zero]. rewrite cis0_true. cbn [orb].
+    rewrite !orb_true_r. reflexivity.
+  - destruct (padm_finite vl Ez) as [s Hs].
+    destruct (pfin vl) as [|f0 fr] eqn:Ef.
+    + (* all branches of the inner connection open: it is open *)
+      assert (E : pval vl = Inf) by (unfold pval; rewrite Ez, Ef; reflexivity). rewrite E.
+      unfold pval, padm. rewrite !pzero_app, pzero_cons, Ez. cbn [ez_is_zero orb].
+      rewrite !pfin_app, pfin_cons_Inf, Ef. reflexivity.
+    + assert (Hfin : pfin vl <> []) by (rewrite Ef; discriminate).
+      assert (E : pval vl = ez_inv C (RtoC 0) Cinv cis0 (Zf s)) by (unfold pval; rewrite Ez, Ef, Hs; reflexivity).
+      rewrite E. cbn [ez_inv]. clear E.
+      destruct (cis0 s) eqn:Es0.
+      * (* the admittances of the inner branches cancel: the inner connection is open *)
+        assert (s0 : s = 0). { unfold cis0 in Es0. destruct (Ceq_dec' s 0); [auto|discriminate]. }
+        unfold pval, padm. rewrite !pzero_app, pzero_cons, Ez. cbn [ez_is_zero orb].
+        destruct (pzero va || pzero vb); [reflexivity|].
+        rewrite !pfin_app, pfin_cons_Inf. rewrite !fold_left_app.
+        assert (Hmid : forall acc, fold_left padd (pfin vl) acc = acc).
+        { intro acc. rewrite padd_fold_acc. unfold padm in Hs. rewrite Hs, s0. destruct acc; simpl; auto. f_equal. ring. }
+        rewrite Hmid.
+        destruct (pfin va ++ pfin vb) eqn:Eab.
+        -- apply app_eq_nil in Eab. destruct Eab as [Ea Eb]. rewrite Ea, Eb. cbn [app fold_left]. rewrite app_nil_r.
+           destruct (pfin vl) eqn:E2; [congruence|]. cbn [ez_inv]. rewrite cis0_true. reflexivity.
+        -- destruct (pfin va ++ pfin vl ++ pfin vb) eqn:E3.
+           ++ apply app_eq_nil in E3. destruct E3 as [_ E3]. apply app_eq_nil in E3. destruct E3 as [E3 _]. congruence.
+           ++ reflexivity.
+      * assert (Hsn : s <> 0). { unfold cis0 in Es0. destruct (Ceq_dec' s 0); [discriminate|auto]. }
+        assert (Hin : cis0 (/ s) = false) by (apply cis0_false, Cinv_nonzero; auto).
+        unfold pval, padm. rewrite !pzero_app, pzero_cons, Ez. cbn [ez_is_zero orb]. rewrite Hin. cbn [orb].
+        destruct (pzero va || pzero vb); [reflexivity|].
+        rewrite !pfin_app, pfin_cons_Zf. rewrite !fold_left_app. cbn [fold_left].
+        assert (Hmid : forall acc, fold_left padd (pfin vl) acc = padd acc (Zf (/ s))).
+        { intro acc. rewrite padd_fold_acc. unfold padm in Hs. rewrite Hs. unfold padd. cbn [ez_inv]. rewrite Hin, Cinv_inv' by auto. reflexivity. }
+        rewrite Hmid.
+        destruct (pfin va ++ Zf (/ s) :: pfin vb) eqn:E1; [destruct (pfin va); discriminate|].
+        destruct (pfin va ++ pfin vl ++ pfin vb) eqn:E3.
+        -- apply app_eq_nil in E3. destruct E3 as [_ E3]. apply app_eq_nil in E3. destruct E3 as [E3 _]. congruence.
+        -- reflexivity.
+Qed.
+
+Theorem parallel_flatten (leaf : nat -> ez C) (a l b : list ctree) : l <> [] ->
+  cspec (CPar (a ++ CPar l :: b)) leaf = cspec (CPar (a ++ l ++ b)) leaf.
+Proof.
+  intro Hl. rewrite !spec_par_pval.
+  - rewrite !map_app. cbn [map]. rewrite (spec_par_pval leaf l Hl). apply pval_flatten. destruct l; [congruence|discriminate].
+  - destruct a; simpl; [destruct l; [congruence|discriminate]|discriminate].
+  - destruct a; discriminate.
+Qed.
